@@ -621,23 +621,47 @@ def run_full(c):
 
 
 def _oracle_linear(np, c, grads, xs, out, res):
-    """update(2 lr) == 2 update(lr) bitwise, state independent of lr"""
+    """update(2 lr) == 2 update(lr) bitwise, state independent of lr.
+
+    The learning rates are 3*2^-k or 5*2^-k so that neither lr nor 2*lr is a constant the compiler treats specially (+-1, 2): then
+    the two compiled programs have the same structure and doubling commutes with every rounding. Should a jitted pair still differ
+    (XLA may fuse / contract differently around a changed constant), the pair is re-run op by op (eager), where no cross-op
+    contraction exists: a violation needs a bitwise difference there, or a jitted difference far above the last bit."""
     import jax
+
+    def compare(o1, o2):
+        worst, first = 0.0, None
+        for name in sorted(c["shapes"]):
+            for t in range(c["T"]):
+                a = 2.0 * np.asarray(o1[name][t])
+                b = np.asarray(o2[name][t])
+                if not np.array_equal(a, b):
+                    den = float(np.abs(a).max()) or 1.0
+                    e = float(np.abs(a - b).max() / den) if np.all(np.isfinite(b)) else float("inf")
+                    if first is None:
+                        first = (name, t, a, b)
+                    worst = max(worst, e)
+        return worst, first
+
     _o1, st1 = impl_run(c, grads=grads, xs=xs, want_state=True)
     out2, st2 = impl_run(c, grads=grads, xs=xs, lr_scale=2.0, want_state=True)
-    res["lin"] = {"steps": 0, "state_leaves": len(st1)}
-    for name in sorted(c["shapes"]):
-        for t in range(c["T"]):
-            a = np.asarray(out[name][t])
-            b = np.asarray(out2[name][t])
-            res["lin"]["steps"] += 1
-            if not np.array_equal(2.0 * a, b):
-                bad = np.argwhere(2.0 * a != b)
-                res["fails"].append({"what": "update(2*lr) != 2*update(lr) bitwise (update not exactly linear in the learning rate)",
-                                     "leaf": name, "t": t, "impl": [float(v) for v in (2.0 * a).reshape(-1)[:6]],
-                                     "ref": [float(v) for v in b.reshape(-1)[:6]], "first_bad": [int(i) for i in bad[0]]})
-                return
-    # the schedule's own counter is part of the state; everything else must not depend on lr
+    res["lin"] = {"steps": sum(c["T"] for _ in c["shapes"]), "state_leaves": len(st1), "mode": "jit" if c.get("jit", True) else "eager"}
+    worst, first = compare(out, out2)
+    if first is not None and c.get("jit", True) and worst <= (1e-13 if c["x64"] else 1e-5):
+        ce = dict(c, jit=False)
+        e1 = impl_run(ce, grads=grads, xs=xs)
+        e2 = impl_run(ce, grads=grads, xs=xs, lr_scale=2.0)
+        worst, first = compare(e1, e2)
+        res["lin"]["mode"] = "eager (jitted pair differed in the last bits)"
+    if first is not None:
+        name, t, a, b = first
+        bad = np.argwhere(a != b)
+        res["fails"].append({"what": "update(2*lr) != 2*update(lr) bitwise (update not exactly linear in the learning rate; "
+                                     f"largest relative difference {worst:.3g})",
+                             "leaf": name, "t": t, "impl": [float(v) for v in a.reshape(-1)[:6]],
+                             "ref": [float(v) for v in b.reshape(-1)[:6]], "first_bad": [int(i) for i in bad[0]]})
+        return
+    # everything in the state (the schedule's own counter included) must not depend on lr
     if len(st1) != len(st2) or any(a.shape != b.shape or not np.array_equal(a, b) for a, b in zip(st1, st2)):
         res["fails"].append({"what": "optimizer state depends on the learning rate", "leaf": "*", "t": c["T"] - 1,
                              "impl": [], "ref": []})
@@ -916,7 +940,7 @@ def gen_tasks(tier, seed):
                 if c["lr"]["kind"] == "sched":
                     c["lr"]["table"] = [2.0 ** -rng.randrange(0, 6) * rng.choice([1, 3, 5]) for _ in range(c["T"])]
                 else:
-                    c["lr"]["v"] = 2.0 ** -rng.randrange(0, 6) * rng.choice([1, 3])
+                    c["lr"]["v"] = 2.0 ** -rng.randrange(1, 7) * rng.choice([3, 5])
             tasks.append(c)
             cid += 1
 
@@ -1151,6 +1175,7 @@ def execute(ctx, tasks):
                         ctx.nontrivial((c["so"], c["graft"]["type"], str(c["shapes"]), c["merge"], c["block"], c["grad"]["seed"], name, t))
             if "lin" in o:
                 ctx.dist("linear_in_lr.steps_bitwise_equal", o["lin"]["steps"])
+                ctx.dist("linear_in_lr.mode." + o["lin"]["mode"])
                 ctx.cov["search_evaluations"] += o["lin"]["steps"]
             for k in ("ema", "nesterov", "after"):
                 ctx.dist(f"momentum.{k}={c['mom'][k]}")
